@@ -4,7 +4,7 @@
     PV.LehmannGen are the model functions, and the theorems of props/Properties_C14.v hold of them. *)
 Require Import Bool List Arith ZArith Lia Reals Ring_theory Field_theory.
 From PV Require Import EDSpec NumLit BigSum Sparse SparseProofs TermList TermListProofs GFPart SuscPart GFPartProofs SuscPartProofs
-     LehmannShapes LehmannInterp LehmannInterpProofs LehmannGen LehmannGenProofs.
+     LehmannShapes LehmannInterp LehmannInterpProofs LehmannGenEquiv LehmannGen LehmannGenProofs.
 From PVgen Require Import Gen_C01 Gen_LehSuscPartCompute Gen_LehAddTerm Gen_LehTermListEval Gen_LehSuscTermTau Gen_LehSuscPartEval
      Gen_LehSuscEval Gen_LehEACompute.
 Import ListNotations.
@@ -41,10 +41,13 @@ Definition model_susc_value_tau (K : Type) (NO : numops K) : list (vstmt K) :=
   [VsInit; VsIf (VcNot VcVanishing) [VsForParts AccPlus] [];
    VsIf VcSubtract [VsSub (fun e => nmul K NO (ve_aveA e) (ve_aveB e))] [];
    VsReturnValue].
+(** up to [LehmannGenEquiv.vequiv]: the same returned value for every state of the object (the source may e.g. return 0 early
+    when Vanishing and nothing is subtracted -- no: that is NOT equivalent, the subtraction also happens for a vanishing object;
+    what is equivalent is e.g. an inverted if / else or `if(SubtractDisconnected && abs(z) < 1e-15)` for the nested tests) *)
 Lemma gen_susc_value_is_model (K : Type) (NO : numops K) :
-  gen_susc_value_z K NO = model_susc_value_z K NO /\ gen_susc_value_tau K NO = model_susc_value_tau K NO /\
+  vequiv (gen_susc_value_z K NO) (model_susc_value_z K NO) /\ vequiv (gen_susc_value_tau K NO) (model_susc_value_tau K NO) /\
   (forall n, gen_susc_matsubara n = susc_total_matsubara_mult n).
-Proof. repeat split; reflexivity. Qed.
+Proof. split; [|split]; [vequiv_auto|vequiv_auto|reflexivity]. Qed.
 
 (** EnsembleAverage::compute: sum over all index1 < outerSize of A(index1, index1) * weight(index1) *)
 Lemma gen_ea_compute_is_model (K : Type) (NO : numops K) :
